@@ -53,3 +53,25 @@ BIN(kron,1,1,view::kron(a,b)) BIN(kron,2,2,view::kron(a,b))
 #elif defined(R_TENSORDOT)
 BIN(tensordot1,2,2,view::tensordot(a,b,meta::ct_v<1>)) BIN(tensordot2,2,2,view::tensordot(a,b)) BIN(tensordot1,1,1,view::tensordot(a,b,meta::ct_v<1>))
 #endif
+
+// operands of DIFFERENT element types (uint8 and uint16 = 256 + byte), 1-d x 1-d: *esz = sizeof(element type of the view), element reported as unsigned
+template <typename V> static inline int observe0w(const V& mv, const size_t* idx, size_t nidx, size_t* oshape, size_t* odim, unsigned* out, size_t* esz){
+  if (!nm::has_value(mv)) return 0; const auto& v = nm::unwrap(mv); using v_t = meta::remove_cvref_t<decltype(v)>; *esz = sizeof(meta::get_element_type_t<v_t>);
+  if constexpr (meta::is_num_v<v_t>) { *odim = 0; if (nidx != 0) return 2; *out = (unsigned)v; return 1; } else return observe(mv, idx, nidx, oshape, odim, out); }
+static inline bool mk1w(hyb_t<unsigned short,16,1>& b, const size_t* s, const u8* d){ if (!b.resize(s[0])) return false; for (size_t i = 0; i < s[0] && i < 16; i++) b.data_[i] = (unsigned short)(256 + d[i]); return true; }
+#define SIGW const size_t* sa, const u8* da, const size_t* sb, const u8* db, const size_t* idx, size_t nidx, size_t* oshape, size_t* odim, unsigned* out, size_t* esz
+#define BINW(NAME,EXPR) KERNEL int K(k_##NAME##_mix_nw)(SIGW){ h_t<1> a; hyb_t<unsigned short,16,1> b; if (!mkd(a,sa,da) || !mk1w(b,sb,db)) return -1; return observe0w(EXPR, idx, nidx, oshape, odim, out, esz); } \
+  KERNEL int K(k_##NAME##_mix_wn)(SIGW){ hyb_t<unsigned short,16,1> a; h_t<1> b; if (!mk1w(a,sa,da) || !mkd(b,sb,db)) return -1; return observe0w(EXPR, idx, nidx, oshape, odim, out, esz); }
+#if defined(R_OUTER)
+BINW(outer, view::outer(a,b))
+#elif defined(R_VECDOT)
+BINW(vecdot, view::vecdot(a,b))
+#elif defined(R_DOT)
+BINW(dot, view::dot(a,b))
+#elif defined(R_INNER)
+BINW(inner, view::inner(a,b))
+#elif defined(R_KRON)
+BINW(kron, view::kron(a,b))
+#elif defined(R_TENSORDOT)
+BINW(tensordot, view::tensordot(a,b,meta::ct_v<1>))
+#endif
